@@ -292,3 +292,69 @@ Proof.
     destruct (cross_stuck_run cfg tr' s s' o1 o2 a b HC H St R') as ([r1 E1] & [r2 E2] & La & Lb).
     unfold done. rewrite E1, E2. auto.
 Qed.
+
+(* ---- the general form: a set of operations each of which polls for a lock held by a member of the set never makes progress.
+   A member is a triple (o, n, o'): operation o polls the lock of node n, which is held by operation o'. ---- *)
+Definition knot (s : st) (B : list (opid * nid * opid)) : Prop :=
+  forall o n o', In (o, n, o') B ->
+    (exists held p r, op_of s o = SRun held (AAcq n :: p) (Some r)) /\
+    lock_of s n = Some (o', false) /\
+    (exists n' o'', In (o', n', o'') B).
+
+Lemma knot_step cfg s e s' B :
+  all_disciplined cfg -> Own s -> knot s B -> step cfg s e = Some s' -> knot s' B.
+Proof.
+  intros HC HS K ST.
+  assert (NB : forall o n o', In (o, n, o') B -> ev_op e <> o).
+  { intros o n o' Hin. destruct (K _ _ _ Hin) as ((held & p & r & Eo) & El & _).
+    eapply (waiting_blocked cfg s e s' o); eauto. }
+  destruct (step_frame _ _ _ _ HC HS ST) as [F1 F2].
+  intros o n o' Hin. destruct (K _ _ _ Hin) as ((held & p & r & Eo) & El & (n' & o'' & Hin')).
+  split; [|split].
+  - exists held, p, r. rewrite F1; [exact Eo|]. intro X. symmetry in X. exact (NB _ _ _ Hin X).
+  - apply F2; [|exact El]. intro X. symmetry in X. exact (NB _ _ _ Hin' X).
+  - eauto.
+Qed.
+
+Theorem knot_is_deadlock cfg tr : forall s s' B,
+  all_disciplined cfg -> Own s -> knot s B -> run cfg s tr = Some s' ->
+  forall o n o', In (o, n, o') B -> done s' o = false /\ lock_of s' n = Some (o', false).
+Proof.
+  induction tr as [|e t IH]; simpl; intros s s' B HC HS K R.
+  - inv R. intros o n o' Hin. destruct (K _ _ _ Hin) as ((held & p & r & Eo) & El & _).
+    unfold done. rewrite Eo. auto.
+  - destruct (step cfg s e) as [s0|] eqn:E; try discriminate.
+    apply (IH s0 s' B); auto. eapply own_step; eauto. eapply knot_step; eauto.
+Qed.
+
+(* cyclic sends 0 -> 1 -> 2 -> 0 *)
+Definition cfg_cycle : list okind := [KSend 0 1; KSend 1 2; KSend 2 0].
+Definition cycle_trace : list ev :=
+  [EIssue 0; EReq 0 0 1; EAcq 0 0 1; EIssue 1; EReq 1 1 2; EAcq 1 1 2; EIssue 2; EReq 2 2 3; EAcq 2 2 3;
+   EReq 1 0 4; EReq 2 1 5; EReq 0 2 6].
+
+Theorem cyclic_sends_deadlock_lemma :
+  exists s, run cfg_cycle (init 3 cfg_cycle) cycle_trace = Some s /\
+    forall tr' s', run cfg_cycle s tr' = Some s' ->
+      done s' 0 = false /\ done s' 1 = false /\ done s' 2 = false /\
+      lock_of s' 0 = Some (0, false) /\ lock_of s' 1 = Some (1, false) /\ lock_of s' 2 = Some (2, false).
+Proof.
+  destruct (run cfg_cycle (init 3 cfg_cycle) cycle_trace) as [s|] eqn:R; [|vm_compute in R; discriminate].
+  exists s. split; auto.
+  assert (HC : all_disciplined cfg_cycle) by reflexivity.
+  assert (HS : Own s) by (eapply own_run; eauto; apply own_init).
+  assert (E : s = mk [Some (0, false); Some (1, false); Some (2, false)]
+                     [SRun [0] [AAcq 1; ARel 1; ARel 0] (Some 4); SRun [1] [AAcq 2; ARel 2; ARel 1] (Some 5);
+                      SRun [2] [AAcq 0; ARel 0; ARel 2] (Some 6)] []) by (vm_compute in R; inv R; reflexivity).
+  assert (K : knot s [(0, 1, 1); (1, 2, 2); (2, 0, 0)]).
+  { subst s. intros o n o' [X|[X|[X|[]]]]; inv X; (split; [do 3 eexists; reflexivity|split; [reflexivity|]]).
+    - exists 2, 2. simpl; auto.
+    - exists 0, 0. simpl; auto.
+    - exists 1, 1. simpl; auto. }
+  intros tr' s' R'.
+  pose proof (knot_is_deadlock cfg_cycle tr' s s' _ HC HS K R') as D.
+  destruct (D 0 1 1) as [D0 L1]; [simpl; auto|].
+  destruct (D 1 2 2) as [D1 L2]; [simpl; auto|].
+  destruct (D 2 0 0) as [D2 L0]; [simpl; auto|].
+  auto 10.
+Qed.
